@@ -2,6 +2,7 @@ import JSL.Inv.PlanLemmas
 import JSL.Inv.PlanOf
 import JSL.Inv.EnvReach
 import JSL.Props.Example
+import JSL.Props.C19
 
 /-!
 # C06 — the lower bound never exceeds the makespan of any feasible schedule
@@ -98,6 +99,20 @@ theorem c06_env_makespan_at_least_bound {orc : Oracle} {inst : Instance} {ec : E
     (C := out.env.res.state.time) (fun j hj o ho b hb => hi.stamp hsuc hdone j hj o ho (hall j hj o ho) b hb)
   have hproj := planOf_proj (orc := orc) w hi.struct.shape r hdet
   exact c06_lower_bound_sound hplan hdur (planOf_nodup_mach hi.struct.shape hnr) (by rw [hproj]; exact hL)
+
+/-- **…so the normalised terminal reward never exceeds its nominal maximum**: when the reward factory
+is given the computed bound (`st.lb`) and the bound is below the normalisation constant, the main
+term `(T_max − makespan)/(T_max − LB)` of the reward of every terminated episode is at most 1. -/
+theorem c06_terminal_reward_at_most_nominal {orc : Oracle} {inst : Instance} {ec : EnvCfg} {st : RewardStatic}
+    {s0 : State} (hst : Start orc inst s0) (h0 : 0 ≤ s0.time)
+    (hdet : ∀ jc ∈ inst.jobs, ∀ oc ∈ jc.ops, ∃ d, oc.dur = .det d)
+    (hnr : ∀ jc ∈ inst.jobs, (jc.ops.map (·.machine)).Nodup)
+    {e : EnvState} (hr : EnvReach orc inst ec st s0 e) {a : AgentAct} {out : StepOut}
+    (h : envStep orc inst ec st e a = .ok out) {C : Int} (hm : out.makespan = some C)
+    {r : Rng} (hL : lowerBound (schedOf orc r inst) = some st.lb) (hlt : st.lb < st.tmax) :
+    sparseReward ec.rw st C true false = .ok (mainTerm st C) ∧ mainTerm st C ≤ 1 :=
+  ⟨c19_terminal_value ec.rw st C (by omega),
+   c19_le_one st hlt C (c06_env_makespan_at_least_bound hst h0 hdet hnr hr h hm hL)⟩
 
 /-- non-vacuity of the environment theorem: the example instance meets every hypothesis and has a bound -/
 example : initOKB Ex.inst Ex.s0 = true ∧ restB Ex.s0 = true ∧ placedB Ex.inst Ex.s0 = true ∧ nonnegB Ex.inst = true ∧
